@@ -151,7 +151,7 @@ func baseProfile() *Profile {
 	return &Profile{
 		W:        map[string]int{"publish": 40, "delete": 18, "trim": 4, "compact": 3, "gc": 4, "sync": 3, "stat": 2, "reopen": 10},
 		MaxBatch: 5, MaxVal: 60,
-		Rollovers: []int64{64, 100, 150, 200, 300, 500, 1 << 20},
+		Rollovers: []int64{1, 7, 8, 36, 64, 100, 150, 200, 300, 500, 1 << 20},
 		TimeModes: []string{"inc", "plateau", "any", "zero", "inc", "plateau"},
 		Cfgs:      allCfgs,
 		Tombstone: 0.15,
